@@ -5,6 +5,7 @@ import os
 import sys
 sys.path.insert(0, os.path.dirname(os.path.abspath(__file__)))
 import analysis as A
+import sqlmod
 import witness
 
 SQ = ("mdk_sqlite_storage",)
@@ -17,6 +18,11 @@ def str_args(prog, f, c):
         if "c" in a and "str" in a["c"]:
             out.append(a["c"]["str"])
         elif "p" in a:
+            # a statement taken from a constant table iterated by a `for` loop: every entry of the table
+            tbl = sqlmod.resolve_strs(f, a["p"][0])
+            if tbl:
+                out.extend(sorted(tbl))
+                continue
             dep, calls, consts = f.depends_on(a["p"][0])
             for _, k in consts:
                 if isinstance(k, dict) and "str" in k:
@@ -91,6 +97,22 @@ def _applies_key(prog, t):
     return False
 
 
+def _complete_const_loop(prog, f, c):
+    """c runs once per entry of a constant table on every Ok path: its statement comes from `for s in TABLE`, every Ok path passes the
+    loop head, and the loop body after c only goes back to the head or fails (`?`) — no break, no early Ok return"""
+    if not c.args or "p" not in c.args[-1] or not sqlmod.resolve_strs(f, c.args[-1]["p"][0]):
+        return False
+    dep, calls, _ = f.depends_on(c.args[-1]["p"][0])
+    heads = [x for x in calls if x.name == "next" and x.krate in ("core", "alloc", "std")]
+    if len(heads) != 1:
+        return False
+    h = heads[0]
+    if not A.MustPass(prog, lambda x: x is h).fn(f) or "to" not in c.t:
+        return False
+    r = A.reach_without_edges(f, c.t["to"], set(), frozenset([h.bb]) | A.err_exit_blocks(f))
+    return not any(f.term(b)["k"] == "return" for b in r)
+
+
 def clause_pragmas(prog, rep):
     fns = [f for f in prog.nontest_fns(SQ) if any(c.name == "execute_batch" and any("PRAGMA key" in s for s in str_args(prog, f, c)) for c in f.live_calls())]
     rep.floor("pragma-order", "function executing PRAGMA key", len(fns), 1)
@@ -108,9 +130,9 @@ def clause_pragmas(prog, rep):
         rep.check(len(key) == 1 and all(A.succ_dominated(f, c.bb, key) for c, s in seq if c not in key), "pragma-order", "key-is-first",
                   "PRAGMA key is the first statement on the connection and its success dominates every later statement",
                   "a statement can run on the connection before (or without) a successful PRAGMA key", f.loc())
-        rep.check(bool(compat) and A.MustPass(prog, lambda c: c in compat).fn(f), "pragma-order", "cipher-compatibility", "cipher_compatibility is pinned on every Ok path",
+        rep.check(bool(compat) and (A.MustPass(prog, lambda c: c in compat).fn(f) or any(_complete_const_loop(prog, f, c) for c in compat)), "pragma-order", "cipher-compatibility", "cipher_compatibility is pinned on every Ok path",
                   "cipher_compatibility is not pinned on every Ok path", f.loc())
-        rep.check(bool(temp) and A.MustPass(prog, lambda c: c in temp).fn(f), "pragma-order", "temp-store-memory",
+        rep.check(bool(temp) and (A.MustPass(prog, lambda c: c in temp).fn(f) or any(_complete_const_loop(prog, f, c) for c in temp)), "pragma-order", "temp-store-memory",
                   "temp_store = MEMORY on every Ok path (no plaintext temp-file spill)", "temp_store = MEMORY is not set on every Ok path: temporary tables may spill to plaintext files", f.loc())
         rep.check(bool(valid) and all(A.call_is_checked(f, c) for c in valid) and A.MustPass(prog, lambda c: c in valid).fn(f), "pragma-order", "validating-read",
                   "a checked validating read follows on every Ok path (wrong key / plain file is refused)",
